@@ -268,12 +268,13 @@ fn case(ctx: &mut Ctx, index: u64, rng: &mut Rng) {
             cancelled.push(id);
         }
     }
-    let q1 = sched.run_to_quiescence();
+    let wp = wire.clone();
+    let q1 = sched.run_to_quiescence_while(|| wp.io_progress());
     let hist1 = sched.hist.clone();
     // phase 2: every call the peer decided never to answer is still pending; fail the transport
     let pending_before: Vec<u32> = tasks.iter().filter(|(id, t)| !sched.is_done(**t) && !cancelled.contains(id)).map(|(id, _)| *id).collect();
     wire.fail(if rng.bool() { Some(std::io::ErrorKind::ConnectionReset) } else { None });
-    let q2 = sched.run_to_quiescence();
+    let q2 = sched.run_to_quiescence_while(|| wp.io_progress());
     let still_pending: Vec<u32> = tasks.iter().filter(|(id, t)| !sched.is_done(**t) && !cancelled.contains(id)).map(|(id, _)| *id).collect();
     let fp = sched.fingerprint();
     let trace = sched.trace_string();
